@@ -112,6 +112,13 @@ def _lens_cases(ctx, nl, rays_per):
                     s['rx'] = rng.uniform(-0.05, 0.05)
                     s['ry'] = rng.uniform(-0.05, 0.05)
                     hist['decentred_apertures'] = hist.get('decentred_apertures', 0) + 1
+        if li % 5 == 2:
+            # explicit ImageSurface object behind an absorbing image-space medium (immersed detector)
+            last = spec['surfaces'][-1]
+            if last.get('material') != 'mirror':
+                last['material'] = ['ideal', rng.uniform(1.3, 1.6), 10 ** rng.uniform(-7.0, -5.5)]
+                spec['image_object'] = True
+                hist['image_surface_objects'] = hist.get('image_surface_objects', 0) + 1
         route = {1: 'handbuilt', 3: 'roundtrip', 4: 'reuse'}.get(li % 6, 'direct')
         try:
             o = lensgen.build_via(spec, route, rng)
